@@ -242,21 +242,21 @@ func (r *Report) Finish(verifDir string, level string) int {
 		ids[o.ID+"|"+o.Construct] = true
 	}
 	cov := map[string]any{
-		"explanation":         r.Explanation,
-		"obligations":         len(r.Obligations),
-		"discharged":          nd,
-		"known_findings":      nk,
+		"explanation":           r.Explanation,
+		"obligations":           len(r.Obligations),
+		"discharged":            nd,
+		"known_findings":        nk,
 		"violated_or_undecided": len(bad),
-		"evaluations":         len(r.Obligations),
-		"distinct_nontrivial": len(ids),
-		"rule":                "one evaluation = one obligation (rule instance on one program construct in one build configuration), recomputed from /repo's current source; distinct = distinct (obligation id, construct) pairs; every obligation is non-trivial in the sense that it names a construct whose change would flip it, and instance floors fail the run when a rule matches fewer constructs than were confirmed by reading",
-		"samples":             samples,
-		"checker_cmd":         strings.Join(os.Args, " "),
-		"trusted_base":        r.Trusted,
-		"configurations":      r.Configs,
-		"counts":              r.Counts,
-		"lists":               r.Lists,
-		"exhaustive":          false,
+		"evaluations":           len(r.Obligations),
+		"distinct_nontrivial":   len(ids),
+		"rule":                  "one evaluation = one obligation (rule instance on one program construct in one build configuration), recomputed from /repo's current source; distinct = distinct (obligation id, construct) pairs; every obligation is non-trivial in the sense that it names a construct whose change would flip it, and instance floors fail the run when a rule matches fewer constructs than were confirmed by reading",
+		"samples":               samples,
+		"checker_cmd":           strings.Join(os.Args, " "),
+		"trusted_base":          r.Trusted,
+		"configurations":        r.Configs,
+		"counts":                r.Counts,
+		"lists":                 r.Lists,
+		"exhaustive":            false,
 	}
 	ev := map[string]any{
 		"property_id": r.Property,
